@@ -5,10 +5,10 @@
      parso/tree.py            NodeOrLeaf.get_code                            -> get_code
      parso/utils.py           split_lines(keepends=True)                     -> split_lines
      jedi/api/refactoring     ChangedFile.get_diff (preamble)                -> preamble
-                              Refactoring.get_changed_files.calculate_to_path-> calc_to_path
+                              Refactoring.get_changed_files.calculate_to_path-> calc_to_path (component-wise; calc_to_path_str = the rule before fix 7b0370f)
                               _calculate_rename                              -> calculate_rename
                               Refactoring.get_changed_files                  -> get_changed_files
-                              ChangedFile.apply / Refactoring.apply          -> apply_fs
+                              ChangedFile.apply / Refactoring.apply          -> apply_fs, apply_refactoring
    Specification side (not a transcription; difflib is not modelled):
      apply_udiff  -- an applier for unified diffs, with the declarative
                      semantics Transforms (Proofs/C07_Proofs.v relates the two). *)
@@ -303,13 +303,15 @@ Definition diff_ok (old_code new_code : str) (hs : list hunk) : bool :=
 
 (* ------------------------------------------------------------------ paths *)
 
-(* calculate_to_path: a *string* prefix rewrite, applied for every rename pair in turn *)
-Fixpoint calc_to_path (p : str) (renames : list (str * str)) : str :=
+(* The rule calculate_to_path used BEFORE fix 7b0370f: a *string* prefix rewrite, applied
+   for every rename pair in turn.  Kept only to state what was wrong with it
+   (C07_old_string_prefix_rule_refuted); the current rule is calc_to_path below. *)
+Fixpoint calc_to_path_str (p : str) (renames : list (str * str)) : str :=
   match renames with
   | [] => p
   | (f, t) :: r =>
-      if starts_with p f then calc_to_path (t ++ skipn (length f) p) r
-      else calc_to_path p r
+      if starts_with p f then calc_to_path_str (t ++ skipn (length f) p) r
+      else calc_to_path_str p r
   end.
 
 (* paths as component lists; str(Path) of an absolute path *)
@@ -344,13 +346,6 @@ Definition calculate_rename (dir : cpath) (name : str) (new_name : str) : cpath 
   then (dir, removelast dir ++ [new_name])
   else (dir ++ [name], dir ++ [new_name ++ suffix name]).
 
-(* Refactoring.get_changed_files (the order of the dict is not modelled) *)
-Definition get_changed_files (changes : list (option str * nmap)) (renames : list (str * str))
-  : list (option str * option str * nmap) :=
-  map (fun pm => (fst pm,
-                  match fst pm with Some p => Some (calc_to_path p renames) | None => None end,
-                  snd pm)) changes.
-
 (* ------------------------------------------------------------ file system *)
 
 (* files only (directories are implied by the paths); contents are abstract ids *)
@@ -381,12 +376,46 @@ Fixpoint write (p : cpath) (c : N) (s : fs) : fs :=
 Definition move_path (f t p : cpath) : cpath :=
   if is_prefix f p then t ++ skipn (length f) p else p.
 
+(* Refactoring.get_changed_files.calculate_to_path (as of fix 7b0370f), for every rename pair
+   in turn:  if p == from_ or from_ in p.parents: p = to.joinpath(p.relative_to(from_))
+   -- a component-wise prefix test *)
+Fixpoint calc_to_path (p : cpath) (renames : list (cpath * cpath)) : cpath :=
+  match renames with
+  | [] => p
+  | (f, t) :: r =>
+      if is_prefix f p then calc_to_path (t ++ skipn (length f) p) r
+      else calc_to_path p r
+  end.
+
+(* Refactoring.get_changed_files (the order of the dict is not modelled); None = a Script without path *)
+Definition get_changed_files (changes : list (option cpath * nmap)) (renames : list (cpath * cpath))
+  : list (option cpath * option cpath * nmap) :=
+  map (fun pm => (fst pm,
+                  match fst pm with Some p => Some (calc_to_path p renames) | None => None end,
+                  snd pm)) changes.
+
 Definition move (f t : cpath) (s : fs) : fs := map (fun e => (move_path f t (fst e), snd e)) s.
 
 (* Refactoring.apply: write every changed file at its from_path, then rename *)
 Definition apply_fs (changed : list (cpath * N)) (renames : list (cpath * cpath)) (s : fs) : fs :=
   fold_left (fun s ft => move (fst ft) (snd ft) s) renames
             (fold_left (fun s pc => write (fst pc) (snd pc) s) changed s).
+
+(* Refactoring.apply (as of fix f514566): `if None in changed_files: raise RefactoringError`
+   BEFORE anything is written; None = the request is refused and there is no new state *)
+Fixpoint strip_paths (changed : list (option cpath * N)) : option (list (cpath * N)) :=
+  match changed with
+  | [] => Some []
+  | (None, _) :: _ => None
+  | (Some p, c) :: r => match strip_paths r with Some r' => Some ((p, c) :: r') | None => None end
+  end.
+
+Definition apply_refactoring (changed : list (option cpath * N)) (renames : list (cpath * cpath)) (s : fs)
+  : option fs :=
+  match strip_paths changed with
+  | Some ch => Some (apply_fs ch renames s)
+  | None => None
+  end.
 
 Definition final_path (renames : list (cpath * cpath)) (p : cpath) : cpath :=
   fold_left (fun p ft => move_path (fst ft) (snd ft) p) renames p.
